@@ -960,6 +960,89 @@ async fn run_probe_v6(
     ))
 }
 
+/// Verification wrappers (properties C27 and C28), compiled only with `--cfg iroh_verif`.
+///
+/// They add no behaviour: they only make the module-private report aggregation
+/// (`Report::update`, `RelayLatencies::{update_relay, merge, get}`) and the report history
+/// (`Client::add_report_history_and_set_preferred_relay`) callable from the harness.
+#[cfg(all(iroh_verif, not(wasm_browser)))]
+#[allow(missing_docs, unreachable_pub, missing_debug_implementations)]
+pub(crate) mod verif_hooks {
+    use super::{
+        reportgen::{HttpsProbeReport, QadProbeReport},
+        *,
+    };
+
+    /// C27: feeds one probe result into `Report::update`. `addr` is ignored for HTTPS probes.
+    pub fn report_update(
+        report: &mut Report,
+        probe: Probe,
+        relay: RelayUrl,
+        latency: Duration,
+        addr: SocketAddr,
+    ) {
+        let probe_report = match probe {
+            Probe::Https => ProbeReport::Https(HttpsProbeReport { relay, latency }),
+            Probe::QadIpv4 => ProbeReport::QadIpv4(QadProbeReport {
+                relay,
+                latency,
+                addr,
+            }),
+            Probe::QadIpv6 => ProbeReport::QadIpv6(QadProbeReport {
+                relay,
+                latency,
+                addr,
+            }),
+        };
+        report.update(&probe_report);
+    }
+
+    /// C27: `RelayLatencies::update_relay`.
+    pub fn latencies_update(l: &mut RelayLatencies, url: RelayUrl, latency: Duration, probe: Probe) {
+        l.update_relay(url, latency, probe);
+    }
+
+    /// C27: `RelayLatencies::merge`.
+    pub fn latencies_merge(l: &mut RelayLatencies, other: &RelayLatencies) {
+        l.merge(other);
+    }
+
+    /// C27: `RelayLatencies::get`.
+    pub fn latencies_get(l: &RelayLatencies, url: &RelayUrl) -> Option<Duration> {
+        l.get(url)
+    }
+
+    /// C28: a net-report client of which only the report history is used.
+    pub struct ReportHistory {
+        client: Client,
+    }
+
+    impl ReportHistory {
+        /// Same construction as the crate's own unit test: no relays, no QUIC config.
+        pub fn new(resolver: DnsResolver, tls_config: rustls::ClientConfig) -> Self {
+            let opts = Options::new(tls_config);
+            Self {
+                client: Client::new(resolver, RelayMap::empty(), opts, Default::default()),
+            }
+        }
+
+        /// Forgets all previous reports (fresh `Reports::default()`).
+        pub fn reset(&mut self) {
+            self.client.reports = Reports::default();
+        }
+
+        /// `Client::add_report_history_and_set_preferred_relay`.
+        pub fn add_report(&mut self, r: &mut Report) {
+            self.client.add_report_history_and_set_preferred_relay(r);
+        }
+
+        /// Number of reports currently kept in the history.
+        pub fn prev_len(&self) -> usize {
+            self.client.reports.prev.len()
+        }
+    }
+}
+
 #[cfg(test)]
 mod test_utils {
     //! Creates a relay server against which to perform tests
